@@ -221,6 +221,10 @@ def compare_snap(a, b, fields, where, out, limit=8):
     """a = model, b = implementation"""
     for kind, names in fields.items():
         la, lb = a.get(kind, []), b.get(kind, [])
+        if isinstance(la, dict):
+            la = [la]
+        if isinstance(lb, dict):
+            lb = [lb]
         if len(la) != len(lb):
             out.append("%s %s: %d objects in the model, %d in the implementation" % (where, kind, len(la), len(lb)))
             continue
